@@ -137,7 +137,7 @@ def gen_grid(tier, seed):
     for ell, prj in cfg.TM_CONFIGS:
         fe = PRJ_PAR[prj][0]
         zs = tmcommon.explicit_zones(prj, 'quick')
-        if tier == 'thorough' and prj != 'isg':
+        if tier == 'thorough' and prj not in ('isg', 'isg2'):
             # the grid lattice is translation-invariant in the zone number: a structural set of zones with the fine E/N lattice
             zs = sorted(set(zs) | {z for z in (3, 15, 29, 32, 45, 46, 58) if z <= cfg.n_zones(prj)})
         for z in zs:
